@@ -3533,13 +3533,14 @@ class Session(_SessionClassMethods, EventTarget):
 
         self._register_altered(states)
 
-        if pending_to_persistent is not None:
-            for state in states.intersection(self._new):
-                pending_to_persistent(self, state)
-
-        # remove from new last, might be the last strong ref
-        for state in set(states).intersection(self._new):
-            self._new.pop(state)
+        try:
+            if pending_to_persistent is not None:
+                for state in states.intersection(self._new):
+                    pending_to_persistent(self, state)
+        finally:
+            # remove from new last, might be the last strong ref
+            for state in set(states).intersection(self._new):
+                self._new.pop(state)
 
     def _register_altered(self, states: Iterable[InstanceState[Any]]) -> None:
         if self._transaction:
